@@ -316,8 +316,9 @@ func (c *Cluster) handleScan(req *Request) *Reply {
 		force := f(req)
 		c.mu.Lock()
 		if force {
+			// the server ends the scan (limit / filter) while this region scanner
+			// still has rows: it stays open until the client closes it
 			resp.MoreResults = proto.Bool(false)
-			closeScanner("more-results-false")
 			info += " forced-no-more-results"
 		}
 	}
